@@ -38,6 +38,10 @@ CHECKS = {
    text="Has, First and Locate are modelled in Coq as separately defined evaluators (depth-first search with early exit; selection that carries normalized paths) over the fragment denotation of C05. Proved for all paths and data: Has is true exactly when Get is non-empty, First is the head of Get's result list (hence a member), and the values Locate points at are exactly Get's results in order. The real Has, FirstFound, Locate (every reported path re-evaluated with Get), Expr.Walk, GetNodes/FirstNode/Get on gen data, Get/Has on Keyed+Indexed wrappers and typed slices are compared with the extracted first_spec/has_spec/locate_spec/get_spec on seeded paths x trees. One genuine disagreement (slice normalisation of Locate/Walk, pinned by tests) is a recorded known finding, decided by an extracted specification variant.",
    technique="Coq proofs relating separately modelled evaluators to the Get denotation + correspondence of eight real evaluators and four data representations",
    design='6/C11'),
+ 'C19': dict(
+   text="diff, jeq and jmatch (Alt/Diff.v) specify alt.Diff, Compare and Match on JSON-like trees (numbers by value across int/float, null equal to an absent member, ignore paths with wildcards applied per key and per index, a shorter second array reported once). Proved for all pairs of trees: Diff without ignore paths is empty exactly when the trees are equal in that sense, and Compare is nil exactly when Diff is empty. alt.Diff (simple and gen data, compared as sets of paths), alt.Compare and alt.Match are compared with the extracted functions on directed pairs (ignore paths at different indexes, wildcards) and seeded trees with 0-3 perturbations and 0-2 ignore paths.",
+   technique="Coq proof that the Diff specification is empty iff trees are equal + correspondence of Diff/Compare/Match against the extracted specification",
+   design='6/C19'),
  'C14': dict(
    text="Proved in Coq: the string-literal codec of JSONPath text (jp.AppendString with the escape classes regenerated from jp/string.go, read back by the model of readStr/readEscStr) is the identity on every string of bytes below 0x80 for both quote characters in any following context. Decided by correspondence: jp.AppendString vs the model on all 1-byte and 896 2-byte ASCII strings; seeded expressions (keys mixing quotes, backslashes, control, punctuation, non-ASCII) through String()/BracketString() and seeded equation trees through Equation/Script/Filter String(): the text must parse, print identically again, and evaluate as the ORIGINAL tree denotes (get_spec / script_match of C05/C12 as oracle). One genuine defect pinned by a test is a recorded known finding.",
    technique="Coq proof of the string-literal round trip + print/parse/evaluate correspondence against the Coq denotation of the original tree",
